@@ -198,8 +198,10 @@ fn run_case<K: TestKey>(seed: u64, case: u64, rep: &mut Report) {
             }
             7 => {
                 let name = *rng.pick(&["stray.txt", "zz", ".hidden", "0"]);
-                std::fs::write(cas_dir.join(name), b"x").unwrap();
-                planted.push(format!("stray file cas/{name}"));
+                // (an earlier plant may have made a directory of that name)
+                if std::fs::write(cas_dir.join(name), b"x").is_ok() {
+                    planted.push(format!("stray file cas/{name}"));
+                }
             }
             8 => {
                 let d = cas_dir.join("ab");
@@ -450,6 +452,7 @@ fn run_case<K: TestKey>(seed: u64, case: u64, rep: &mut Report) {
 fn main() {
     let args = Args::from_env();
     let _guard = fsx::ScratchGuard;
+    cassadilia_verif::report::install_panic_location_hook();
     let seed = args.u64("seed", 1);
     let cases = args.u64("cases", 300);
     let ids: Vec<u64> = match args.get("case") {
@@ -472,7 +475,10 @@ fn main() {
                     let r = std::panic::catch_unwind(std::panic::AssertUnwindSafe(|| {
                         if id % 2 == 0 { run_case::<String>(seed, id, &mut rep) } else { run_case::<Vec<u8>>(seed, id, &mut rep) }
                     }));
-                    if r.is_err() {
+                    let at = cassadilia_verif::report::last_panic_location();
+                    if r.is_err() && cassadilia_verif::report::panic_is_in_harness(&at) {
+                        rep.inconclusive.push(format!("harness panic at {at} in case {id}"));
+                    } else if r.is_err() {
                         rep.violate(
                             Finding::new(&["C08"], "panic while scanning or cleaning planted garbage", "panic", format!("case {id}")),
                             J::obj().set("engine", J::s("orphmon")).set(
